@@ -949,6 +949,46 @@ Proof.
 Qed.
 End O.
 
+(* ============================================================ ORCA $end test ========= *)
+Section OE.
+Variable A : Type.
+Variable hdr : A.
+Variable is_end : list A -> bool.
+Notation row := (list A).
+Notation matrix := (list (list A)).
+
+Lemma existsb_firstn_false {T} (f : T -> bool) (l : list T) m :
+  (forall x, In x l -> f x = false) -> existsb f (firstn m l) = false.
+Proof.
+  intros H. destruct (existsb f (firstn m l)) eqn:E; [|reflexivity].
+  apply existsb_exists in E as [x [Hx Hf]]. rewrite H in Hf; [discriminate|].
+  rewrite <- (firstn_skipn m l). apply in_or_app. left. exact Hx.
+Qed.
+
+(* a complete .hess file: block, blank line, further sections, the closing "$end" line *)
+Lemma orca_hess_file_complete w (M : matrix) h rest X :
+  1 <= w -> M <> [] -> rect (length M) M -> orca_lines hdr w M = h :: rest ->
+  existsb is_end X = true ->
+  orca_hess_file is_end (length M) (h :: rest ++ [] :: X) = Ok M.
+Proof.
+  intros Hw Hne HR HL HX. unfold orca_hess_file.
+  replace (existsb is_end (rest ++ [] :: X)) with true.
+  - unfold orca_parse.
+    assert (Hn : 1 <= length M) by (destruct M; [congruence|cbn; lia]).
+    rewrite (orca_reassembly A hdr w M (length M) X h rest Hw Hn Hne HR HL).
+    rewrite Nat.eqb_refl, (rectb_true A _ _ HR). reflexivity.
+  - symmetry. rewrite existsb_app. cbn [existsb]. rewrite HX. rewrite !orb_true_r. reflexivity.
+Qed.
+(* every file that ends inside (or right after) the block - no line of the block is a "$end" line -
+   is CouldNotGetProperty, whatever the cut *)
+Lemma orca_hess_file_truncated w (M : matrix) h rest m R :
+  orca_lines hdr w M = h :: rest -> (forall l, In l rest -> is_end l = false) ->
+  orca_hess_file is_end R (h :: firstn m rest) = ErrProperty.
+Proof.
+  intros HL HE. unfold orca_hess_file. rewrite existsb_firstn_false by exact HE. reflexivity.
+Qed.
+End OE.
+
 (* ============================================================ xyz / StringDict ===== *)
 From Coq Require Import Ascii String QArith.
 Local Open Scope list_scope.
@@ -1066,6 +1106,12 @@ Qed.
 Section X.
 Variable valid_sym : str -> bool.
 Variable solvent_key : str.
+Variables int_ok mult_ok float_ok solv_ok : str -> bool.
+Notation read_frames' := (read_frames valid_sym solvent_key int_ok mult_ok float_ok solv_ok).
+Notation read_molecules' := (read_molecules valid_sym solvent_key int_ok mult_ok float_ok solv_ok).
+Notation title_converts' := (title_converts solvent_key int_ok mult_ok float_ok solv_ok).
+Notation title_solvent_ok' := (title_solvent_ok solvent_key solv_ok).
+Notation title_values_ok' := (title_values_ok int_ok mult_ok float_ok).
 Definition labels_ok (atoms : list atom) : Prop := Forall (fun a => valid_sym (lbl a) = true) atoms.
 
 Lemma parse_written (atoms : list atom) : labels_ok atoms ->
@@ -1105,28 +1151,29 @@ Qed.
 
 Lemma read_frames_written n : forall (fs : list (list atom * str)) fuel,
   1 <= n -> List.length fs <= fuel ->
-  Forall (fun fa => List.length (fst fa) = n /\ labels_ok (fst fa)) fs ->
-  read_frames valid_sym solvent_key fuel n (write_frames fs) = Ok (map frame_of fs).
+  Forall (fun fa => List.length (fst fa) = n /\ labels_ok (fst fa) /\ title_converts' (snd fa) = true) fs ->
+  read_frames' fuel n (write_frames fs) = Ok (map frame_of fs).
 Proof.
   induction fs as [|[atoms title] fs IH]; intros fuel Hn Hf HF.
   - destruct fuel; reflexivity.
-  - destruct fuel as [|fuel]; [cbn in Hf; lia|]. inversion HF as [|? ? [H1 H2] H3]; subst.
+  - destruct fuel as [|fuel]; [cbn in Hf; lia|]. inversion HF as [|? ? [H1 [H2 H4]] H3]; subst.
     cbn [fst snd] in *. unfold write_frames. cbn [map List.concat]. unfold write_frame at 1.
     cbn [fst snd app read_frames skipn hd]. fold (write_frames fs).
     rewrite (firstn_app_exact _ _ _ (map_length write_atom atoms)).
     rewrite map_length, Nat.eqb_refl. cbn [negb orb].
     replace (List.length atoms =? 0) with false by (symmetry; apply Nat.eqb_neq; lia).
     rewrite parse_written by exact H2. cbn [title_text].
+    unfold title_converts in H4. apply andb_prop in H4 as [H4a H4b]. rewrite H4a, H4b. cbn [negb].
     rewrite (skipn_app_exact _ _ _ (map_length write_atom atoms)).
     rewrite IH; [reflexivity|exact Hn|cbn in Hf; lia|exact H3].
 Qed.
 
 Lemma write_frames_last n (fs : list (list atom * str)) :
-  1 <= n -> fs <> [] -> Forall (fun fa => List.length (fst fa) = n /\ labels_ok (fst fa)) fs ->
+  1 <= n -> fs <> [] -> Forall (fun fa => List.length (fst fa) = n /\ labels_ok (fst fa) /\ title_converts' (snd fa) = true) fs ->
   exists l x, write_frames fs = l ++ [x] /\ is_blank x = false.
 Proof.
   intros Hn Hne HF. induction fs as [|[atoms title] fs IH]; [congruence|].
-  inversion HF as [|? ? [H1 H2] H3]; subst. cbn [fst] in *.
+  inversion HF as [|? ? [H1 [H2 H4]] H3]; subst. cbn [fst] in *.
   destruct fs as [|f2 fs].
   - unfold write_frames. cbn [map List.concat]. rewrite app_nil_r. unfold write_frame. cbn [fst snd].
     destruct (exists_last (l:=atoms)) as [l' [a Ha]]; [destruct atoms; [cbn in Hn; lia|discriminate]|].
@@ -1139,8 +1186,8 @@ Proof.
 Qed.
 
 Lemma xyz_multi n (fs : list (list atom * str)) :
-  1 <= n -> fs <> [] -> Forall (fun fa => List.length (fst fa) = n /\ labels_ok (fst fa)) fs ->
-  read_molecules valid_sym solvent_key (write_frames fs) = Ok (map frame_of fs).
+  1 <= n -> fs <> [] -> Forall (fun fa => List.length (fst fa) = n /\ labels_ok (fst fa) /\ title_converts' (snd fa) = true) fs ->
+  read_molecules' (write_frames fs) = Ok (map frame_of fs).
 Proof.
   intros Hn Hne HF. unfold read_molecules.
   destruct (write_frames_last n fs Hn Hne HF) as [l [x [E Hx]]].
@@ -1214,19 +1261,44 @@ Proof.
 Qed.
 
 (* --- the multi-frame reader (after commit 432035c) --- *)
-Lemma read_frames_documented n : forall fuel ls,
-  (exists f, read_frames valid_sym solvent_key fuel n ls = Ok f) \/
-  read_frames valid_sym solvent_key fuel n ls = ErrFormat.
+Lemma Forall_skipn {T} (P : T -> Prop) (l : list T) k : Forall P l -> Forall P (skipn k l).
 Proof.
-  induction fuel as [|f IH]; intros ls; [left; eexists; reflexivity|].
+  intros H. rewrite Forall_forall in *. intros x Hx. apply H.
+  rewrite <- (firstn_skipn k l). apply in_or_app. right. exact Hx.
+Qed.
+Definition titles_solvent_ok (ls : list xline) : Prop := Forall (fun l => title_solvent_ok' (title_text l) = true) ls.
+(* a file whose titles name only known solvents is accepted or rejected with the documented format error *)
+Lemma read_frames_documented n : forall fuel ls, titles_solvent_ok ls ->
+  (exists f, read_frames' fuel n ls = Ok f) \/ read_frames' fuel n ls = ErrFormat.
+Proof.
+  induction fuel as [|f IH]; intros ls HT; [left; eexists; reflexivity|].
   cbn [read_frames]. destruct ls as [|l0 rest0]; [left; eexists; reflexivity|].
   destruct (negb _ || _); [right; reflexivity|].
   destruct (parse_atoms_cases (firstn n (skipn 1 rest0))) as [[a Ha]|Ha]; rewrite Ha; [|right; reflexivity].
-  destruct (IH (skipn n (skipn 1 rest0))) as [[fr Hf]|Hf]; rewrite Hf; [left; eexists; reflexivity|right; reflexivity].
+  assert (HT0 : titles_solvent_ok rest0) by (inversion HT; assumption).
+  assert (Hh : title_solvent_ok' (title_text (hd (LTok []) rest0)) = true).
+  { destruct rest0 as [|t r]; [reflexivity|]. inversion HT0; assumption. }
+  rewrite Hh. cbn [negb].
+  destruct (negb (title_values_ok' _)); [right; reflexivity|].
+  destruct (IH (skipn n (skipn 1 rest0))) as [[fr Hf]|Hf]; [apply Forall_skipn, Forall_skipn; exact HT0| |];
+    rewrite Hf; [left; eexists; reflexivity|right; reflexivity].
+Qed.
+(* without that premise the only other outcome is SolventNotFound for an unknown solvent name *)
+Lemma read_frames_cases n : forall fuel ls,
+  (exists f, read_frames' fuel n ls = Ok f) \/ read_frames' fuel n ls = ErrFormat \/ read_frames' fuel n ls = ErrOther.
+Proof.
+  induction fuel as [|f IH]; intros ls; [left; eexists; reflexivity|].
+  cbn [read_frames]. destruct ls as [|l0 rest0]; [left; eexists; reflexivity|].
+  destruct (negb _ || _); [right; left; reflexivity|].
+  destruct (parse_atoms_cases (firstn n (skipn 1 rest0))) as [[a Ha]|Ha]; rewrite Ha; [|right; left; reflexivity].
+  destruct (negb (title_solvent_ok' _)); [right; right; reflexivity|].
+  destruct (negb (title_values_ok' _)); [right; left; reflexivity|].
+  destruct (IH (skipn n (skipn 1 rest0))) as [[fr Hf]|[Hf|Hf]]; rewrite Hf;
+    [left; eexists; reflexivity|right; left; reflexivity|right; right; reflexivity].
 Qed.
 (* every accepted frame has exactly the declared number of atoms: no truncated frame is accepted *)
 Lemma read_frames_sound n : forall fuel ls frs,
-  read_frames valid_sym solvent_key fuel n ls = Ok frs ->
+  read_frames' fuel n ls = Ok frs ->
   Forall (fun fr => List.length (f_atoms fr) = n /\ 1 <= n) frs.
 Proof.
   induction fuel as [|f IH]; intros ls frs H; cbn [read_frames] in H.
@@ -1235,7 +1307,9 @@ Proof.
     destruct (negb (List.length (firstn n (skipn 1 rest0)) =? n) || (n =? 0)) eqn:E; [discriminate|].
     apply orb_false_iff in E as [E1 E2]. apply negb_false_iff in E1. apply Nat.eqb_eq in E1. apply Nat.eqb_neq in E2.
     destruct (parse_atoms valid_sym (firstn n (skipn 1 rest0))) as [a| | | |] eqn:Ea; try discriminate.
-    destruct (read_frames valid_sym solvent_key f n (skipn n (skipn 1 rest0))) as [fr| | | |] eqn:Ef; try discriminate.
+    destruct (negb (title_solvent_ok' _)); [discriminate|].
+    destruct (negb (title_values_ok' _)); [discriminate|].
+    destruct (read_frames' f n (skipn n (skipn 1 rest0))) as [fr| | | |] eqn:Ef; try discriminate.
     injection H as <-. constructor; [|apply (IH _ _ Ef)].
     cbn [f_atoms]. split; [|lia]. rewrite (parse_atoms_length _ _ Ea). exact E1.
 Qed.
